@@ -96,6 +96,10 @@ class PropertyCheck:
     def setup(self, ctx: "Ctx"):
         pass
 
+    def drift_view(self, trace: list) -> list:
+        """Projection of an observed trace that is compared with Scenario.predicted (drift count only)."""
+        return trace
+
 
 def _jsonable(x):
     if isinstance(x, (str, int, bool)) or x is None:
@@ -305,7 +309,7 @@ def _run_check(ctx: Ctx, check: PropertyCheck, replay: str | None) -> int:
     # drift: observed vs. predicted (never a violation)
     drift, drift_sample = 0, None
     for s, tr in zip(scs, traces):
-        if s.predicted is not None and _jsonable(s.predicted) != tr:
+        if s.predicted is not None and _jsonable(s.predicted) != _jsonable(check.drift_view(tr)):
             drift += 1
             if drift_sample is None:
                 drift_sample = {"scenario": _jsonable(s.data), "predicted": _jsonable(s.predicted), "observed": tr}
